@@ -56,7 +56,9 @@ type Sched struct {
 	atoms    map[unsafe.Pointer]*uint64
 	timers   []*timer
 	now      int64
-	clkh     uint64
+	clkh     uint64 // hash of the clock as an actor (timer bodies)
+	clkv     uint64 // version of the clock as an object (timer list, current time)
+	tag      uint64
 	killed   bool
 	finished chan struct{}
 	wg       sync.WaitGroup
@@ -107,6 +109,8 @@ func Run(ch Chooser, cfg Config, body func()) *Sched {
 	if S != nil {
 		panic("vs.Run: nested")
 	}
+	runCounter++
+	s.tag = runCounter%65535 + 1
 	S = s
 	t := s.newThread("main", true)
 	s.cur = t
@@ -143,6 +147,20 @@ func mix(a, b, c uint64) uint64 {
 	return h
 }
 
+// Object version hashes are tagged with the execution they were written in: an object that survives
+// from an earlier execution (package-level registries, pools, locks of the code under test) starts every
+// execution with version 0, so that equal states of different executions hash equally.
+const verMask = 1<<48 - 1
+
+var runCounter uint64
+
+func (s *Sched) ver(obj *uint64) uint64 {
+	if *obj>>48 != s.tag {
+		return 0
+	}
+	return *obj & verMask
+}
+
 // touch records that the running thread (or the clock, when a timer fires) performed operation `code` on
 // the object whose version hash is *obj: the happens-before hash used by the explorer's state cache.
 func touch(obj *uint64, code uint64) {
@@ -158,8 +176,8 @@ func touch(obj *uint64, code uint64) {
 		*hp = mix(*hp, 0, code)
 		return
 	}
-	*hp = mix(*hp, *obj, code)
-	*obj = *hp
+	*hp = mix(*hp, s.ver(obj), code)
+	*obj = *hp&verMask | s.tag<<48
 }
 
 func (s *Sched) key() uint64 {
@@ -171,7 +189,7 @@ func (s *Sched) key() uint64 {
 		}
 		k = mix(k, t.h, uint64(t.id)<<1|d)
 	}
-	return mix(k, s.clkh, uint64(s.now))
+	return mix(mix(k, s.clkh, uint64(s.now)), s.ver(&s.clkv), 0)
 }
 
 func (s *Sched) newThread(name string, fg bool) *Thread {
@@ -222,8 +240,10 @@ func (s *Sched) enabled(self *Thread) []*Thread {
 			e = append(e, t)
 		}
 	}
-	if self != nil && self.en != nil && self.yield && self.en() {
-		e = append(e, self) // a yielding thread is the last choice
+	if len(e) == 0 && self != nil && self.en != nil && self.yield && self.en() {
+		// fair scheduling of yields (as in fair stateless model checking): a thread that yields is not
+		// schedulable while another thread can make a step; otherwise spin-wait loops unroll forever.
+		e = append(e, self)
 	}
 	return e
 }
